@@ -6,6 +6,7 @@ import (
 	"encoding/asn1"
 	"fmt"
 	"math/big"
+	"math/bits"
 	"testing"
 
 	cose "github.com/veraison/go-cose"
@@ -33,6 +34,9 @@ type c03Case struct {
 	// object that held KeyWas[i] and had yielded a verifier for it before its parameters were
 	// overwritten in place with those of VKeys[i]
 	KeyWas []refcose.KeyMat `json:"key_was,omitempty"`
+	// Reentrant: every message-level verifier runs other library operations between being handed its
+	// bytes and reading them (see reenterLibrary)
+	Reentrant bool `json:"reentrant,omitempty"`
 }
 
 // verifierFromEditedKey: Key.Verifier() on a key object that was a different key a moment ago.
@@ -156,6 +160,10 @@ func checkC03(c c03Case) error {
 		}
 		if err != nil {
 			return fmt.Errorf("harness: verifier: %v", err)
+		}
+		if c.Reentrant {
+			v = reentrantVerifier{v}
+			stats.Class("verifiers-run-other-library-operations")
 		}
 		vs = append(vs, v)
 	}
@@ -482,9 +490,12 @@ func c03Opts() gen.MsgOpts {
 }
 
 // genC03Case draws a validly signed message and one of the attack classes.
-func genC03Case(t *rapid.T) c03Case {
-	wc, _ := genWireCase(t, c03Opts(), true)
+func genC03Case(t *rapid.T) c03Case { return genC03CaseWith(t, c03Opts()) }
+
+func genC03CaseWith(t *rapid.T, opts gen.MsgOpts) c03Case {
+	wc, _ := genWireCase(t, opts, true)
 	c := c03Case{Spec: wc.Spec, Kind: wc.Spec.Kind, Wire: wc.Wire, Orig: wc.Wire, Ext: wc.Spec.External, ExtNil: wc.Spec.ExtNil}
+	c.Reentrant = rapid.IntRange(0, 3).Draw(t, "reentrant") == 0
 	for _, s := range wc.Spec.Sigs {
 		c.VKeys = append(c.VKeys, s.Key)
 	}
@@ -661,6 +672,29 @@ func TestC03_Mutants(t *testing.T) {
 }
 
 // FuzzC03 drives the same property from coverage-guided byte input.
+// TestC03_LargePayload: the same attack classes over messages whose content is one to a few MiB long
+// (payload lengths around 2^20 and 2^21): the verdict must not depend on how long the content is.
+func TestC03_LargePayload(t *testing.T) {
+	begin(t, "C03", "large")
+	o := c03Opts()
+	o.Hdr.MaxEntries = 3
+	o.MaxSigners = 2
+	o.PayloadLens = []int{1<<20 - 1, 1 << 20, 1<<20 + 1, 1<<21 + 5}
+	prop(t, func(rt *rapid.T) {
+		c := genC03CaseWith(rt, o)
+		stats.Eval()
+		stats.Class(fmt.Sprintf("payload-length/2^%d", bits.Len(uint(len(c.Spec.Payload)))-1))
+		if c.ExtNil {
+			stats.Class("large/external-nil")
+		} else if len(c.Ext) == 0 {
+			stats.Class("large/external-empty")
+		} else {
+			stats.Class("large/external-set")
+		}
+		judge(rt, "c03", c, checkC03)
+	})
+}
+
 func FuzzC03(f *testing.F) {
 	cur = propCtx{Property: "C03", Part: "fuzz"}
 	f.Fuzz(rapid.MakeFuzz(func(rt *rapid.T) {
